@@ -115,3 +115,9 @@ def run(ctx):
 
 def replay(ctx, path):
     return vlib.generic_replay(ctx, path, "c19", "drv_c19")
+
+MANIFEST = dict(
+    category="proof",
+    text="Lean theorems over the integer time line for every history of requests (power-of-two step, divides the remainder, <= request and maximum, strictly increasing, never past 2^63, ends exactly, steps sum to the interval, restore = id, largest admissible step); model tied to TimeLine.hpp by exact differential runs (integers and double bit patterns identical) plus the property oracle on the implementation.",
+    note="Trusted: Lean kernel + 3 standard axioms; hand model of TimeLine.hpp; exactness of A*2^k in doubles (no underflow); theorems concern the integer clock, the reported double time is only compared; callers stop after advance() returned false; requests >= 0.",
+    technique="Lean 4 proof by induction over the request history + exact differential correspondence")
